@@ -39,7 +39,7 @@ RULE = ("pairwise covering array over kind (FrozenPhonons / AtomsEnsemble) x num
         "seeds are seeded samples. Non-trivial: n > 1 and the compared arrays are not all zero (n == 1 rows exercise "
         "the degenerate ensemble and are flagged non-trivial only for the seed clauses). Distinct = distinct case dict.")
 BOUNDS = {"axes": _AXES, "atoms": "<= 5", "gpts": "<= 20 per side", "slices": "2..4",
-          "rows": {"quick": "covering array + 20 random rows", "thorough": "3 covering arrays + 3 x 250 random rows"}}
+          "rows": {"quick": "covering array + 20 random rows", "thorough": "3 covering arrays + 3 x 150 random rows"}}
 EXHAUSTIVE = False
 ASSUMPTIONS = [
     "ensemble member vs independent run compared with max-abs error <= 1e-5 * max|reference| (float32)",
@@ -86,7 +86,7 @@ def cases(tier, seed):
     reps = 1 if tier == "quick" else 3
     i = 0
     for s in range(reps):
-        for row in covering(_AXES, seed=77 + 1000 * seed + s, extra_random=20 if tier == "quick" else 250):
+        for row in covering(_AXES, seed=77 + 1000 * seed + s, extra_random=20 if tier == "quick" else 150):
             yield _finish(row, seed, i)
             i += 1
 
